@@ -7,6 +7,8 @@ package main
 // accessors) both hold.
 
 import (
+	"go/token"
+	"go/types"
 	"sort"
 	"strings"
 
@@ -90,5 +92,149 @@ func ruleC07EqKinds(p *Prog, a *Anchors, r *Report) {
 		} else {
 			r.Bad(n, p.Pos(eq.Pos()), "%s never asks both operands whether they are %s: they are compared as boxed Go values, so two equal %s held in different Go types (float32 and float64, a named type and its base type, a pointer and a value) are `!=` although `<=` and `>=` both hold", p.FuncName(eq), n, n)
 		}
+	}
+}
+
+// R-C07-UNARY: "`^` binds tighter than unary minus/not, then `* / %`": −a * b reads (−a) * b. The two readings differ
+// in value: (−0) * 1.5 is 0.000000 where −(0 * 1.5) is −0.000000, and for the smallest int n, (−n) / 2 is negative where
+// −(n / 2) is positive. The minus sign matched in front of a term therefore must not end up as a flag of the node of
+// the + − level, whose Evaluate applies it to the value of the whole first term: that flag may only be set together
+// with the negation flag (`- not x`, which is no number anyway); the sign belongs to the first factor.
+func ruleC07Unary(p *Prog, a *Anchors, r *Report) {
+	r.Begin("R-C07-UNARY", "the minus sign in front of a term is not applied to the value of the whole term (a flag of the + − level's node that its Evaluate turns into a negation) except together with `not`: −a * b is (−a) * b", 1)
+	node := p.Named("simpleExpression")
+	ev := p.Method("simpleExpression", "Evaluate")
+	parse := p.Method("Parser", "parseSimpleExpression")
+	if node == nil || ev == nil || parse == nil {
+		r.Unk("anchor", "-", "anchor unresolved: simpleExpression / its Evaluate / parseSimpleExpression")
+		return
+	}
+	st := node.Underlying().(*types.Struct)
+	// arithmetic negation: −1 * x, 0 − x, −x — here or in a helper called here
+	var negates func(f *ssa.Function, d int) map[ssa.Instruction]bool
+	negates = func(f *ssa.Function, d int) map[ssa.Instruction]bool {
+		out := map[ssa.Instruction]bool{}
+		for _, b := range f.Blocks {
+			for _, in := range b.Instrs {
+				switch x := in.(type) {
+				case *ssa.BinOp:
+					if x.Op == token.MUL {
+						for _, s := range []ssa.Value{x.X, x.Y} {
+							if c, ok := s.(*ssa.Const); ok && c.Value != nil && c.Value.ExactString() == "-1" {
+								out[in] = true
+							}
+						}
+					}
+					if x.Op == token.SUB {
+						if c, ok := x.X.(*ssa.Const); ok && c.Value != nil && c.Value.ExactString() == "0" {
+							out[in] = true
+						}
+					}
+				case *ssa.UnOp:
+					if x.Op == token.SUB {
+						out[in] = true
+					}
+				case *ssa.Call:
+					if callee := x.Common().StaticCallee(); callee != nil && callee.Blocks != nil && p.InPkg(callee) && d < 2 && callee != f {
+						if len(negates(callee, d+1)) > 0 {
+							out[in] = true
+						}
+					}
+				}
+			}
+		}
+		return out
+	}
+	negs := negates(ev, 0)
+	signField := -1
+	for i := 0; i < st.NumFields(); i++ {
+		if b, ok := st.Field(i).Type().Underlying().(*types.Basic); !ok || b.Kind() != types.Bool {
+			continue
+		}
+		idx := i
+		for in := range negs {
+			if Guarded(in, func(c ssa.Value, pol bool) bool {
+				u, ok := c.(*ssa.UnOp)
+				if !ok || !pol {
+					return false
+				}
+				fa, ok := u.X.(*ssa.FieldAddr)
+				return ok && fa.Field == idx && structOf(fa.X.Type()) == node
+			}) {
+				signField = idx
+			}
+		}
+	}
+	if signField < 0 {
+		r.OK("simpleExpression:sign", p.Pos(ev.Pos()), "the + − level's node applies no minus sign to its first term")
+		return
+	}
+	// the negation flag: the other bool field
+	notField := -1
+	for i := 0; i < st.NumFields(); i++ {
+		if b, ok := st.Field(i).Type().Underlying().(*types.Basic); ok && b.Kind() == types.Bool && i != signField {
+			notField = i
+		}
+	}
+	isNotLoad := func(v ssa.Value) bool {
+		u, ok := v.(*ssa.UnOp)
+		if !ok {
+			return false
+		}
+		fa, ok := u.X.(*ssa.FieldAddr)
+		return ok && notField >= 0 && fa.Field == notField && structOf(fa.X.Type()) == node
+	}
+	n := 0
+	for _, f := range withClosures(parse) {
+		for _, b := range f.Blocks {
+			for _, in := range b.Instrs {
+				s, ok := in.(*ssa.Store)
+				if !ok {
+					continue
+				}
+				fa, ok := s.Addr.(*ssa.FieldAddr)
+				if !ok || fa.Field != signField || structOf(fa.X.Type()) != node {
+					continue
+				}
+				n++
+				key := "parseSimpleExpression:sign-on-term"
+				if n > 1 {
+					key += "#" + itoa(int64(n))
+				}
+				var onlyWithNot func(v ssa.Value, d int) bool
+				onlyWithNot = func(v ssa.Value, d int) bool {
+					if d > 4 {
+						return false
+					}
+					if c, ok := v.(*ssa.Const); ok {
+						return c.Value != nil && c.Value.ExactString() == "false"
+					}
+					if isNotLoad(v) {
+						return true
+					}
+					if bo, ok := v.(*ssa.BinOp); ok && bo.Op == token.AND {
+						return onlyWithNot(bo.X, d+1) || onlyWithNot(bo.Y, d+1)
+					}
+					if phi, ok := v.(*ssa.Phi); ok {
+						for _, e := range phi.Edges {
+							if !onlyWithNot(e, d+1) {
+								return false
+							}
+						}
+						return true
+					}
+					return false
+				}
+				guarded := Guarded(in, func(c ssa.Value, pol bool) bool { return pol && isNotLoad(c) })
+				if onlyWithNot(s.Val, 0) || guarded {
+					r.OK(key, p.InstrPos(in), "the flag that negates the whole first term is set only together with the negation flag")
+				} else {
+					r.Bad(key, p.InstrPos(in), "the minus sign in front of a term is stored as simpleExpression.%s, which Evaluate applies to the value of the whole first term: −a * b is evaluated as −(a * b), which differs from (−a) * b for a zero (−0 * 1.5 prints −0.000000) and for the smallest int (−n / 2 has the wrong sign)", st.Field(signField).Name())
+				}
+			}
+		}
+	}
+	if n == 0 {
+		r.OK("parseSimpleExpression:sign-on-term", p.Pos(parse.Pos()), "the parser never sets the flag")
 	}
 }
